@@ -187,6 +187,20 @@ func TestVerifC18(t *testing.T) {
 					return ""
 				})
 			}
+			// every calling-convention number of LLVM's range, keyword or not (numeric form `cc N`), incl. the
+			// conventions declared as untyped constants (absent from the generated tables)
+			for v := 1; v <= 1023; v++ {
+				cc := enum.CallingConv(v)
+				roundtrip(fmt.Sprintf("calling convention number %d", v), func(m *ir.Module) {
+					f := m.NewFunc("f", types.Void)
+					f.CallingConv = cc
+				}, func(m *ir.Module) string {
+					if got := m.Funcs[0].CallingConv; got != cc {
+						return fmt.Sprintf("parsed back as %d", got)
+					}
+					return ""
+				})
+			}
 		case "TLSModel":
 			for _, c := range en.consts {
 				tm := enum.TLSModel(c.val)
